@@ -15,6 +15,11 @@ Property text ↔ theorems (model: `NtpVerif.Model.Steer`; helper lemmas: `NtpVe
   "When a correction would violate a threshold the daemon stops (exits) instead of stepping"
                                                                    exit_instead_of_step, run_stops_at_exit,
                                                                    jump_startup_decision, jump_later_decision
+  the same clauses over the WHOLE controller (`Model/Controller`: select → combine → steering → bookkeeping,
+   the estimate computed by the model)                             whole_startup_steps_within, whole_later_steps_within,
+                                                                   whole_accumulated_within_saturated / _partial,
+                                                                   whole_exit_instead_of_step
+  provenance: a step amount is `from_seconds` of a finite value    whole_step_is_from_seconds
 
 All run theorems quantify over EVERY configuration (finite / infinite / asymmetric / negative thresholds,
 any algorithm limits, both `NtpDuration::abs`/`Neg` variants), every initial controller state and every list
@@ -23,6 +28,7 @@ measurement history of any number of sources is covered.  Float arithmetic is un
 hold for whatever bits it returns.
 -/
 import NtpVerif.Proofs.Steer
+import NtpVerif.Proofs.Controller
 
 namespace NtpVerif.C01
 open NtpVerif.Steer NtpVerif.Wrap
@@ -201,6 +207,87 @@ example : demoCfg.accumulated = some 7730941132800 ∧ (7730941132800 : Int) < I
 example : (checkDur { demoCfg with single := ⟨none, none⟩ } witnessSt I64_MIN).2 = .panic ∧
     (checkDur { demoCfg with satOps := true } witnessSt I64_MIN).2 = .exit := by decide
 
+
+/-! ### the same clauses over the WHOLE controller model (`Model/Controller`)
+
+`Controller.run` composes `select` (Model/Select), `combine` (Kalman2.merge, leap vote), the steering decision
+and the post-steer bookkeeping; the combined estimate is COMPUTED by the model from the per-source snapshots
+(for every `HashMap` iteration order).  `Proofs/Controller.run_sim`: the steering events of such a run are
+exactly the trace of `Steer.run` on the estimates the whole model computed, so the clauses carry over. -/
+
+open NtpVerif.Controller in
+/-- **C01.whole_startup_steps_within** — every `step_clock(d)` the whole controller issues in a call that
+    started with `in_startup` set satisfies the startup threshold. -/
+theorem whole_startup_steps_within (cfg : Controller.Cfg) (c : Ctrl) (msgs : List Msg) (o : Out) (d : Int)
+    (ho : (true, o) ∈ Controller.run cfg c msgs) (hc : Call.step d ∈ o.calls) :
+    isWithin cfg.steer.satOps cfg.steer.startup d = some true :=
+  startup_steps_within cfg.steer c.st _ d (step_call_in_trace ho hc)
+
+open NtpVerif.Controller in
+/-- **C01.whole_later_steps_within** — every later step satisfies the single-step threshold. -/
+theorem whole_later_steps_within (cfg : Controller.Cfg) (c : Ctrl) (msgs : List Msg) (o : Out) (d : Int)
+    (ho : (false, o) ∈ Controller.run cfg c msgs) (hc : Call.step d ∈ o.calls) :
+    isWithin cfg.steer.satOps cfg.steer.single d = some true :=
+  later_steps_within cfg.steer c.st _ d (step_call_in_trace ho hc)
+
+open NtpVerif.Controller in
+/-- **C01.whole_accumulated_within_saturated** — after every post-startup step of every run of the whole
+    controller, the saturated sum of absolute post-startup steps is within the accumulated threshold. -/
+theorem whole_accumulated_within_saturated (cfg : Controller.Cfg) (v : Int)
+    (hv : cfg.steer.accumulated = some v) (c : Ctrl) (h0 : 0 ≤ c.st.acc) (h1 : c.st.acc ≤ I64_MAX)
+    (msgs : List Msg) :
+    ∀ x ∈ sums c.st.acc (postSteps (steerTrace (Controller.run cfg c msgs))), satI64 x ≤ v := by
+  rw [run_sim]
+  exact accumulated_within_saturated cfg.steer v hv c.st h0 h1 _
+
+open NtpVerif.Controller in
+/-- **C01.whole_accumulated_within_partial** — the exact sum, for thresholds below `NtpDuration::MAX`. -/
+theorem whole_accumulated_within_partial (cfg : Controller.Cfg) (v : Int)
+    (hv : cfg.steer.accumulated = some v) (hlt : v < I64_MAX) (c : Ctrl) (h0 : 0 ≤ c.st.acc)
+    (h1 : c.st.acc ≤ I64_MAX) (msgs : List Msg) :
+    ∀ x ∈ sums c.st.acc (postSteps (steerTrace (Controller.run cfg c msgs))), x ≤ v := by
+  rw [run_sim]
+  exact accumulated_within_partial cfg.steer v hv hlt c.st h0 h1 _
+
+open NtpVerif.Controller in
+/-- **C01.whole_exit_instead_of_step** — a call of the whole controller that ends in `exit` made no
+    `step_clock` call. -/
+theorem whole_exit_instead_of_step (cfg : Controller.Cfg) (c : Ctrl) (m : Msg)
+    (hfin : (Controller.step cfg c m).fin = .exit) : ∀ d, Call.step d ∉ (Controller.step cfg c m).calls := by
+  intro d hd
+  have hs := step_sim cfg c m
+  rcases hs.1 _ hd with h | ⟨_, _, _, _, h, _⟩ | ⟨_, h⟩
+  · rcases mem_evCalls h with ⟨h, _⟩ | ⟨d', h, hev⟩ | ⟨_, h, _⟩
+    · cases h
+    · cases h
+      cases hinp : (Controller.step cfg c m).inp with
+      | none =>
+        have := hs.2; rw [hinp] at this
+        rw [this.1] at hev; simp at hev
+      | some i =>
+        have := hs.2; rw [hinp] at this
+        obtain ⟨hev', _, _, hex⟩ := this
+        have hne : (Steer.ctrlStep cfg.steer c.st i).fin ≠ .ok := by rw [hex hfin]; decide
+        rw [hev'] at hev
+        exact exit_instead_of_step cfg.steer c.st i hne d hev
+    · cases h
+  · cases h
+  · cases h
+
+open NtpVerif.Controller in
+/-- **C01.whole_step_is_from_seconds** (provenance) — the amount of every step the whole controller makes is
+    `NtpDuration::from_seconds` of a value that is neither NaN nor infinite: no NaN reaches `step_clock`
+    through control flow. -/
+theorem whole_step_is_from_seconds (cfg : Controller.Cfg) (c : Ctrl) (msgs : List Msg) (b : Bool) (o : Out)
+    (d : Int) (ho : (b, o) ∈ Controller.run cfg c msgs) (hc : Call.step d ∈ o.calls) :
+    ∃ x : F64, fromSeconds x = some d ∧ x.isNaN = false ∧ x.isInf = false := by
+  obtain ⟨st', inp, hev, _⟩ := run_mem (step_call_in_trace ho hc)
+  rcases ctrlStep_evs hev with h | ⟨d', x, h, hx⟩ | ⟨_, _, h⟩ | ⟨_, _, _, h, _⟩
+  · cases h
+  · cases h; exact ⟨x, hx, fromSeconds_finite hx⟩
+  · cases h
+  · cases h
+
 end NtpVerif.C01
 
 #print axioms NtpVerif.C01.startup_steps_within
@@ -214,3 +301,9 @@ end NtpVerif.C01
 #print axioms NtpVerif.C01.run_stops_at_exit
 #print axioms NtpVerif.C01.jump_startup_decision
 #print axioms NtpVerif.C01.jump_later_decision
+#print axioms NtpVerif.C01.whole_startup_steps_within
+#print axioms NtpVerif.C01.whole_later_steps_within
+#print axioms NtpVerif.C01.whole_accumulated_within_saturated
+#print axioms NtpVerif.C01.whole_accumulated_within_partial
+#print axioms NtpVerif.C01.whole_exit_instead_of_step
+#print axioms NtpVerif.C01.whole_step_is_from_seconds
